@@ -75,8 +75,21 @@ def step (st : St) (op : String) (args : List String) : Option (St × String) :=
     pure (flow st (finishAssign4 (← strHex? eni) (← int? n)) (← bool? fail))
   | "fassign6", [eni, n, fail] => do
     pure (flow st (finishAssign6 (← strHex? eni) (← int? n)) (← bool? fail))
+  -- the same flows through the real OpenAPI wrappers (harness: scripted HTTP transport); fail: 0 ok, 1 server error, 2 business code
+  | "acreate", [vsw, trunk, erdma, sgs, rg, ipc, ip6c, dor, sdc, tags, fail] => do
+    let p ← params? [vsw, trunk, erdma, sgs, rg, ipc, ip6c, dor, sdc]
+    pure (flow st (finishCreate p (← tags? tags)) (← failTok? fail))
+  | "aassign4", [eni, n, fail] => do
+    pure (flow st (finishAssign4 (← strHex? eni) (← int? n)) (← failTok? fail))
+  | "aassign6", [eni, n, fail] => do
+    pure (flow st (finishAssign6 (← strHex? eni) (← int? n)) (← failTok? fail))
+  | "aeflo", [vsw, trunk, erdma, sgs, rg, ipc, ip6c, dor, sdc, inst, zone, fail] => do
+    let p ← params? [vsw, trunk, erdma, sgs, rg, ipc, ip6c, dor, sdc]
+    pure (flow st (finishEfloCreate p (← strHex? inst) (← strHex? zone)) (← failTok? fail))
   | _, _ => none
 where
+  failTok? (s : String) : Option Bool :=
+    if s = "0" then some false else if s = "1" ∨ s = "2" then some true else none
   flow (st : St) (r : Option HashInput) (fail : Bool) : St × String :=
     match r with
     | none => (st, "err")
